@@ -1,11 +1,11 @@
 #!/bin/bash
-# usage: tools/sweep.sh "<ids>" [workers] [seed]  — run quick checks sequentially, summarize into build/sweep.log
-W=${2:-8}; S=${3:-1}
+# usage: [TIER=thorough] tools/sweep.sh "<ids>" [workers] [seed]  — run checks sequentially, summarize into build/sweep.log
+W=${2:-8}; S=${3:-1}; TIER=${TIER:-quick}; SUF=""; [ $TIER = thorough ] && SUF="-thorough"
 mkdir -p /verif/build
 for id in $1; do
   start=$(date +%s)
-  VERIF_SEED=$S /verif/check $id --tier quick --workers $W > /verif/build/sweep-$id.out 2>&1; rc=$?
-  echo "$(date +%H:%M:%S) $id rc=$rc $(( $(date +%s) - start ))s $(grep -E "evaluations" /verif/build/sweep-$id.out | head -1)" >> /verif/build/sweep.log
-  grep -E "VIOLATION|BROKEN|KNOWN-FINDING|key=" /verif/build/sweep-$id.out | head -6 >> /verif/build/sweep.log
+  VERIF_SEED=$S /verif/check $id --tier $TIER --workers $W > /verif/build/sweep-$id$SUF.out 2>&1; rc=$?
+  echo "$(date +%H:%M:%S) $id rc=$rc $(( $(date +%s) - start ))s $(grep -E "evaluations" /verif/build/sweep-$id$SUF.out | head -1)" >> /verif/build/sweep$SUF.log
+  grep -E "VIOLATION|BROKEN|KNOWN-FINDING|key=" /verif/build/sweep-$id$SUF.out | head -6 >> /verif/build/sweep$SUF.log
 done
-echo "SWEEP DONE $(date +%H:%M:%S)" >> /verif/build/sweep.log
+echo "SWEEP DONE $(date +%H:%M:%S)" >> /verif/build/sweep$SUF.log
